@@ -151,6 +151,15 @@ end
 /-- the groups of a statement list -/
 def groupsOf (E : Enc) (st : List (TStmt β)) : List (Str × Str × List (Tree β)) := groupByKey (stmtTrees E st)
 
+/-- the node object expected for an exported resource: subject and tagged statements -/
+def rootTree (E : Enc) (B : Builder β) (r : Term β × List (TStmt β)) : Tree β :=
+  let id : NodeId β :=
+    match r.1 with
+    | .iri v => .iri v
+    | .bnode b => if B.refCount b == 0 then .anon b else .named b
+    | .lit _ _ _ => .iri []
+  Tree.node id ((groupsOf E r.2).map (·.2))
+
 /-- the forest the encoder's document is expected to denote (the certificate): one default-graph block
     with a node object per exported resource, in the order of the two passes of `ExportResources` -/
 def encForest (cfg : Cfg β) (d : List (DQuad β)) (ord ord2 : List (Term β)) : Option (Forest β) :=
@@ -165,13 +174,7 @@ def encForest (cfg : Cfg β) (d : List (DQuad β)) (ord ord2 : List (Term β)) :
     match foldRootsT B fuel (B.pick2 Opts.default) ord2 V1 with
     | none => none
     | some (rs2, _) =>
-      some [(none, (rs1 ++ rs2).map fun (r : Term β × List (TStmt β)) =>
-        let id : NodeId β :=
-          match r.1 with
-          | .iri v => .iri v
-          | .bnode b => if B.refCount b == 0 then .anon b else .named b
-          | .lit _ _ _ => .iri []
-        Tree.node id ((groupsOf E r.2).map (·.2)))]
+      some [(none, (rs1 ++ rs2).map (rootTree E B))]
 
 /-- the counter at which the entries of the encoder's document start: a single item is the document
     itself, several items sit in an `@graph` whose wrapper takes a blank node first -/
